@@ -74,6 +74,10 @@ pub fn main(args: &Args) -> i32 {
         sweep::worker(sh, oracle);
         return 0;
     }
+    let demo_check = |d: &crate::demos::Demo| check(&d.arts, &d.schema, "");
+    if let Some(code) = crate::demos::replay_if_demo(args, &demo_check) {
+        return code;
+    }
     if args.replay.is_some() {
         return sweep::replay(args);
     }
@@ -91,10 +95,15 @@ pub fn main(args: &Args) -> i32 {
     for v in res.violations {
         verdict.add(v);
     }
+    let (demo_violations, demo_artifacts) = crate::demos::violations(&demo_check);
+    for v in demo_violations {
+        verdict.add(v);
+    }
     verdict.violations.sort_by_key(|v| v.what.len());
     let (code, n_new, known) = verdict.conclude("comp_mc/c09");
     ev.violations = n_new as i64;
     let ops = res.stats.extra.get("operations_validated").copied().unwrap_or(0);
+    ev.set("demo_projects", json!(crate::demos::DEMOS)).set("demo_artifacts", demo_artifacts);
     ev.set("evaluations", res.stats.programs)
         .set("distinct_nontrivial", res.stats.accepted)
         .set("rule", "every program of the stated families compiled by the real compiler; every query_text / __refetch__query_text artifact evaluated to the string the runtime reads (swc, cooked) and parsed with the relay graphql-syntax parser, then validated against the universe schema (fields, leaf/composite shape, arguments defined/required/coercible, variables declared/used/compatible incl. inside object values, fragment conditions, mergeable response names); non-trivial = accepted programs")
